@@ -219,7 +219,46 @@ contract(
     inputs=lambda S, cfg: dict(self=distinct_interval_tier(S, "self"), entry=new_interval(S),
                                collisionMode=cfg["collisionMode"],
                                collisionReportingMode=cfg["collisionReportingMode"]),
-    requires=["0 <= entry.start", "entry.end <= 1e15", "strip(entry.label) == entry.label"],
+    requires=["0 <= entry.start", "entry.end <= 1e15"],
     spec="spec.tiers.IntervalTier_insertEntry", spec_first=True,
     ensures=wf_interval_clauses("self"),
+)
+
+
+def distinct_point_tier(S, name):
+    t = wf_point_tier(S, name)
+    t.attrs["_entries"].term.requires_distinct = True
+    return t
+
+
+REGION = ["0 <= start", "self.minTimestamp <= start", "end <= self.maxTimestamp"]
+
+contract(
+    IT + ".eraseRegion",
+    serves=["C07", "C05", "C10", "C13"],
+    configs={"collisionMode": ["truncate", "categorical", "error", "bogus"], "doShrink": [False]},
+    inputs=lambda S, cfg: dict(self=distinct_interval_tier(S, "self"), start=S.real("start"), end=S.real("end"),
+                               collisionMode=cfg["collisionMode"], doShrink=cfg["doShrink"]),
+    requires=REGION,
+    spec="spec.tiers.IntervalTier_eraseRegion_noshrink", spec_first=True,
+    ensures=wf_interval_clauses("result") + [
+        ("span-unchanged", "result.minTimestamp == self.minTimestamp and result.maxTimestamp == self.maxTimestamp"),
+        ("nothing-inside", "forall(result.entries, lambda e: not overlaps(e, start, end))")],
+    frame=["self"],
+)
+
+contract(
+    PT + ".eraseRegion",
+    serves=["C07", "C05", "C13"],
+    configs={"collisionMode": ["truncate", "error"], "doShrink": [True, False]},
+    inputs=lambda S, cfg: dict(self=distinct_point_tier(S, "self"), start=S.real("start"), end=S.real("end"),
+                               collisionMode=cfg["collisionMode"], doShrink=cfg["doShrink"]),
+    requires=REGION,
+    spec="spec.tiers.PointTier_eraseRegion",
+    ensures=[("nothing-inside", "forall(result.entries, lambda p: not (start <= p.time and p.time <= end)) "
+                                "or doShrink"),
+             ("span", "result.minTimestamp == self.minTimestamp and result.maxTimestamp == "
+                      "(self.maxTimestamp - (end - start) if doShrink else self.maxTimestamp)"),
+             ("sorted", "is_sorted(result.entries)")],
+    frame=["self"],
 )
